@@ -245,3 +245,10 @@ Theorem C04_median_time_spec :
     (forall y, In y present -> (wt_time y < t)%Z -> (cum_le present (wt_time y) < total_weight present / 2)%Z).
 Proof. exact median_time_spec. Qed.
 Print Assumptions C04_median_time_spec.
+
+(** The decision-critical functions of the anchored code have exactly the decisions the source tie knows about
+    (go2coq manifests, regenerated from /repo on every check; statement in SourceManifest.v). *)
+From Kardia Require Import C04.SourceManifest.
+Theorem C04_source_manifest : C04_source_manifest_statement.
+Proof. exact C04_source_manifest_proof. Qed.
+Print Assumptions C04_source_manifest.
